@@ -19,10 +19,10 @@ from vlib import Spec, standard_check
 
 from checks import c13 as _c13
 
-TEXT = ("Filter part (Filter/C03Filters.v): C03f_today_refuted -- the model of today's kalman.rs does not return from the "
+TEXT = ("Filter part (Filter/C03Filters.v): C03f_today_refuted -- the model of kalman.rs BEFORE the F24 repair (c_f24 = false) does not return from the "
         "fifth of five 0 ns peer delay measurements, nor from the tenth of alternating equal-time Sync/Delay_Resp "
         "measurements (Duration::from_seconds(NaN), both build modes): finding F24, kf=24; "
-        "C03f_kalman_patched_no_panic -- for the model of kalman.rs after the proposed patch (c_f24 = true), every "
+        "C03f_kalman_patched_no_panic -- for the model of kalman.rs as it is since the F24 repair (ba079f9; model switch c_f24 = true = impl_f24_fixed), every "
         "configuration in the documented ranges, every stream of measurements/update/demobilize of any length with event "
         "times and clock replies below 2^127 (bit patterns) and ANY offsets, both build modes, any exp: every call and "
         "every current_estimates() returns (invariant kinv preserved by every call; C03f_kalman_measurement_returns; "
@@ -46,7 +46,7 @@ class SF(Spec):
     trusted_base = [
         "Coq 8.16.1 kernel, coqc, vm_compute (no native_compute)",
         "Coq.Floats.FloatAxioms, Uint63 axioms, Flocq 4 and the classical real-number axioms it uses (same list as C13)",
-        "hand-written models Filter/KalmanModel.v (incl. the model-only switch c_f24 between today's kalman.rs and the patched one), Filter/BasicModel.v, Filter/FloatBits.v: validated by this run's correspondence (every Panic site incl. the event at which it is reached)",
+        "hand-written models Filter/KalmanModel.v (incl. the model-only switch c_f24 between kalman.rs before and after the F24 repair), Filter/BasicModel.v, Filter/FloatBits.v: validated by this run's correspondence (every Panic site incl. the event at which it is reached)",
         "libm exp: a parameter of the model; streams where a wander p-value lies within 1e-9 (relative) of a decision threshold are not compared and are counted (exp_threshold_skips)",
         "harness/src/bin/c03f.rs (port-shaped stream generators, scripted clock, unobserved warm-up) + harness/src/bin/c13.rs (printing) and lib/vlib.py",
     ]
@@ -54,7 +54,7 @@ class SF(Spec):
         "filter level: Measurements are built as port/slave.rs builds them (one raw offset kind per Measurement); the port itself is covered by the port part of C03",
         "event times and clock replies below 2^127 as U96F32 bit patterns (2^95 ns); the property needs 2^63 ns",
         "KalmanConfiguration within its documented ranges (precision_hysteresis <= 127, estimation boundaries not (0, >0), non-negative max_steer / max_freq_offset); BasicFilter gain in [0, 1]",
-        "the theorem C03f_kalman_patched_no_panic is about the model with c_f24 = true (kalman.rs + .cache/scratch-filter/f24.diff); until the patch is applied the run reports KNOWN-FINDING kf=24 for the streams of finding F24",
+        "the theorem C03f_kalman_patched_no_panic is about the model with c_f24 = true, i.e. kalman.rs since the F24 repair (fix: ba079f9 in /repo); impl_f24_fixed = true ties the correspondence to that model",
     ]
     rule = ("each case is one stream for one filter, one configuration, one clock behaviour (good / read-at-event / frozen / failing / "
             "unsteppable / flaky); families: frozen event times, coarse (quantised) event times, P2P with constant peer delay, "
@@ -125,8 +125,7 @@ def run(tier, seed, replay=None, merge_with_previous=False):
         cov = ev.setdefault("coverage", {})
         cov["exp_threshold_skips"] = _c13._skips["n"]
         cov["not_proved"] = [
-            "KalmanFilter as it is in /repo today: refuted (F24); the no-panic theorem is about the patched model",
-            "C03f_kalman_patched_no_panic is about the model with c_f24 = true; it applies to /repo once f24.diff is applied and impl_f24_fixed is flipped",
+            "KalmanFilter before the F24 repair (commit ba079f9 in /repo): refuted (C03f_today_refuted, model switch c_f24 = false, kept as the historic model)",
         ]
         if merge_with_previous and prev is not None and "filters" not in prev.get("coverage", {}):
             ev = _merge(prev, ev)
